@@ -16,12 +16,15 @@ open M3d M3d.Tri M3d.Surface
 abbrev Q := Rat
 
 /-- `pts0` are the coordinates `x/den` as written in the op line, `sc = 2^k` the dyadic unit of
-length of an `S k` header (1 without it), `pts = sc · pts0` the coordinates the Go code was given. -/
+length of an `S k` header (1 without it), `off` the whole-number translation of an `O ox oy` header
+(the far placement; `(0,0)` without it), `pts = sc · (pts0 + off)` the coordinates the Go code was
+given (`placeP`). -/
 structure Input where
   den : Nat
   lens : List Nat
   pts0 : List (P2 Q)
   sc : Q
+  off : P2 Q
   pts : List (P2 Q)
   rest : List String
 
@@ -50,22 +53,30 @@ def parseLoops (den : Nat) : Nat → List String → Option (List Nat × List (P
       pure (n :: ls, ps ++ qs, r')
   | _, [] => none
 
-/-- `[S e] D den L k n₁ x y … n₂ … rest`; `S e` = all coordinates are multiplied by `2^e`. -/
-def parseInputS (sc : Q) : List String → Option Input
+/-- `[O ox oy] [S e] D den L k n₁ x y … n₂ … rest`; `O ox oy` = all points are translated by the
+whole-number vector `(ox, oy)`, then `S e` = all coordinates are multiplied by `2^e`. -/
+def parseInputS (off : P2 Q) (sc : Q) : List String → Option Input
   | "D" :: d :: "L" :: k :: ws => do
       let den ← d.toNat?
       if den = 0 then none
       let k ← k.toNat?
       let (lens, pts, rest) ← parseLoops den k ws
-      pure ⟨den, lens, pts, sc, pts.map (scaleP sc), rest⟩
+      pure ⟨den, lens, pts, sc, off, pts.map (placeP sc off.x off.y), rest⟩
   | _ => none
 
-def parseInput : List String → Option Input
+def parseInputO (off : P2 Q) : List String → Option Input
   | "S" :: e :: ws => do
       let e ← e.toInt?
       if e.natAbs > 200 then none
-      parseInputS (pow2 e) ws
-  | ws => parseInputS 1 ws
+      parseInputS off (pow2 e) ws
+  | ws => parseInputS off 1 ws
+
+def parseInput : List String → Option Input
+  | "O" :: ox :: oy :: ws => do
+      let ox ← ox.toInt?
+      let oy ← oy.toInt?
+      parseInputO ⟨(ox : Q), (oy : Q)⟩ ws
+  | ws => parseInputO ⟨0, 0⟩ ws
 
 inductive TrisField | panic | foreign | tris (ts : List Tri)
 
@@ -182,14 +193,15 @@ def handleEar (inp : Input) : Option String := do
   let loops := loopSlices inp.lens inp.pts0
   let poly ← loops.head?
   if loops.length ≠ 1 || !simpleLoop poly then some "invalid-input" else
-  -- the area of the polygon the Go code was given (`pts = sc·pts0`)
-  let a2 := absQ (shoelace2 (poly.map (scaleP inp.sc)))
+  -- the area of the polygon the Go code was given (`pts = sc·(pts0 + off)`; by
+  -- `M3d.C14.cert_placement_invariant` it is `sc²` times the area of `pts0`, wherever it is placed)
+  let a2 := absQ (shoelace2 (poly.map (placeP inp.sc inp.off.x inp.off.y)))
   match tf with
   | .panic => some s!"ok area={showRat (a2 / 2)} n=?"
   | .foreign => some "bad:foreign-vertex"
   | .tris ts =>
     -- the certificate is evaluated on the coordinates as written (`pts0`); by
-    -- `M3d.C14.cert_scale_invariant` that is the verdict for the scaled input `pts = sc·pts0`
+    -- `M3d.C14.cert_placement_invariant` that is the verdict for the placed input `pts = sc·(pts0 + off)`
     let c := coordFn inp.pts0
     match certLine c poly.length (isClockwise poly) inp.lens ts with
     | some b => some b
@@ -201,7 +213,7 @@ def handleMesh (inp : Input) : Option String := do
   let (tf, _) ← parseTris inp.rest
   let loops := loopSlices inp.lens inp.pts0
   if !validRegion loops then some "invalid-input" else
-  -- the area of the region the Go code was given (`pts = sc·pts0`)
+  -- the area of the region the Go code was given (`pts = sc·(pts0 + off)`)
   let a2 := regionArea2 (loopSlices inp.lens inp.pts)
   let cnt := expectCount loops
   let okLine := s!"ok area={showRat (a2 / 2)} n={cnt}"
@@ -209,7 +221,7 @@ def handleMesh (inp : Input) : Option String := do
   | .panic => some okLine
   | .foreign => some "bad:foreign-vertex"
   | .tris ts =>
-    let c := coordFn inp.pts0   -- verdict for `sc·pts0` by `cert_scale_invariant`
+    let c := coordFn inp.pts0   -- verdict for `sc·(pts0 + off)` by `cert_placement_invariant`
     match certLine c inp.pts.length true inp.lens ts with
     | some b =>
       -- classification for the known finding: everything holds except that some triangles have
@@ -310,16 +322,25 @@ def triLt (a b : Tri) : Bool :=
 
 def canonSoup (ts : List Tri) : List Tri := sortBy triLt (ts.map canonTri)
 
-def handleProfile (inp : Input) : Option String :=
-  match inp.rest with
+/-- The extrusion range: `Z z0 z1` = lattice values `z/den` in the region's unit of length;
+`ZQ q0 q1` = the exact values (`num/den`) of the two float64 arguments, whatever they are. -/
+def parseZ (inp : Input) : List String → Option (Q × Q × List String)
   | "Z" :: z0 :: z1 :: rest => do
       let z0 ← z0.toInt?
       let z1 ← z1.toInt?
+      pure ((z0 : Q) / inp.den * inp.sc, (z1 : Q) / inp.den * inp.sc, rest)
+  | "ZQ" :: z0 :: z1 :: rest => do
+      let q0 ← parseRat z0
+      let q1 ← parseRat z1
+      pure (q0, q1, rest)
+  | _ => none
+
+def handleProfile (inp : Input) : Option String :=
+  match parseZ inp inp.rest with
+  | some (q0, q1, rest) => do
       let (tf, _) ← parseTris rest
       let loops := loopSlices inp.lens inp.pts
-      if !validRegion loops || z1 ≤ z0 then some "invalid-input" else
-      let q0 : Q := (z0 : Q) / inp.den * inp.sc
-      let q1 : Q := (z1 : Q) / inp.den * inp.sc
+      if !validRegion loops || q1 ≤ q0 then some "invalid-input" else
       let a2 := regionArea2 loops
       let cnt := 2 * expectCount loops + 2 * (inp.pts.length : Int)
       let okLine := s!"ok vol={showRat (a2 / 2 * (q1 - q0))} n={cnt}"
@@ -339,7 +360,7 @@ def handleProfile (inp : Input) : Option String :=
           if v6 / 6 != a2 / 2 * (q1 - q0) then some s!"bad:volume={showRat (v6 / 6)}"
           else if (ts.length : Int) ≠ cnt then some s!"bad:count={ts.length}"
           else some okLine
-  | _ => none
+  | none => none
 
 def handleAll (ws : List String) : Option String :=
   match ws with
